@@ -439,7 +439,10 @@ Definition sstep (c : cfg) (fs : list file) (pre : list Z) (s : sst) (o : sop) :
                    mkPred (Some RStalled) None None false)
               | _, _, _ =>
                   let ok := negb (existsb (req_fails f (s_reg s)) reqs) in
-                  if known then
+                  (* without a landmark, files that start inside the range are decompressed completely, which may read
+                     behind the range: under a registry fault the outcome of that second phase is not predicted *)
+                  let certain := strict || negb ok || (s_reg s && match f with FFail _ => false | _ => true end) in
+                  if known && certain then
                     let s1 := mkS (wstep w2 (PfReturn ok)) (s_next s) (s_reg s) (s_held s)
                                   (if ok then keys ++ s_fs s else s_fs s) (s_exact s) None ok (s_bgok s) in
                     (s1, mkPred (Some (if ok then ROk else RErr)) (preqs ok) (Some (if ok then tgt else 0)) false)
